@@ -125,3 +125,67 @@ def parse_exports(text):
     for m in re.finditer(r"#\[unsafe\(no_mangle\)\]\s*pub fn (\w+)\(mut env: (\w+)\)", text):
         res.append((m.group(1), m.group(2)))
     return res
+
+
+# ------------------------------------------------------------------ programs with `model` declarations (C09)
+
+def _member_one(args):
+    """Compiles a program of the C17 generator (one model declaration, member predicates, morphisms) in both build
+    modes and links a trivial main against each. -> dict(text, module=(status, log), component=(status, log))"""
+    import subprocess
+    import members_gen
+    seed, idx, scratch = args
+    case = members_gen.gen_case(seed, idx)
+    prog = case[0] if isinstance(case, (tuple, list)) else case["prog"]
+    text = members_gen.prog_eql(prog)
+    out = {"idx": idx, "text": text}
+    bd = os.path.join(CACHE, "target", "release", "build-driver")
+    rlib = gendrv.runtime_rlib()
+    for mode in ("module", "component"):
+        wd = os.path.join(scratch, "mem%d-%s" % (idx, mode))
+        shutil.rmtree(wd, ignore_errors=True)
+        for sub in ("in", "out", "comp"):
+            os.makedirs(os.path.join(wd, sub))
+        open(os.path.join(wd, "in", "thy.eql"), "w").write(text)
+        from common import sh
+        if mode == "module":
+            rc, log = sh([bd, "module", os.path.join(wd, "in"), os.path.join(wd, "out")], timeout=300)
+        else:
+            rc, log = sh([bd, "component", os.path.join(wd, "in"), os.path.join(wd, "out"), os.path.join(wd, "comp"), shutil.which("rustc"), rlib],
+                         timeout=900, env={"RAYON_NUM_THREADS": "8"})
+        if rc == 1:
+            out[mode] = ("rejected", log[-800:])
+            continue
+        if rc != 0:
+            out[mode] = ("compiler_panic", log[-1500:])
+            continue
+        main = os.path.join(wd, "main.rs")
+        open(main, "w").write('#![allow(warnings)]\nmod th { include!("%s"); }\nfn main() { let mut m = th::Thy::new(); m.close(); }\n'
+                              % os.path.join(wd, "out", "thy.eql.rs"))
+        cmd = ["rustc", "--edition", "2021", "-C", "opt-level=0", "-C", "debuginfo=0", "--cap-lints", "allow", main, "-o", os.path.join(wd, "main"),
+               "--extern", "eqlog_runtime=%s" % rlib, "-L", "dependency=%s" % os.path.dirname(rlib)]
+        if mode == "component":
+            cdir = os.path.join(wd, "comp", "thy.eql")
+            cmd += ["-L", "native=%s" % cdir]
+            for f in sorted(os.listdir(cdir)):
+                if f.endswith(".rlib"):
+                    cmd += ["-l", "static:+verbatim=%s" % f]
+        rc, log = sh(cmd, timeout=900)
+        if rc != 0:
+            out[mode] = ("rustc_failed", log[-1500:])
+            continue
+        p = subprocess.run("ulimit -v 4000000; ulimit -t 20; exec %s" % os.path.join(wd, "main"), shell=True, capture_output=True, text=True)
+        out[mode] = ("ok", "") if p.returncode == 0 else ("run_failed", p.stderr[-500:])
+        shutil.rmtree(wd, ignore_errors=True)
+    return out
+
+
+def run_member_programs(ctx, n, tag="modes-mem"):
+    scratch = os.path.join(CACHE, "scratch", "%s-%d" % (tag, os.getpid()))
+    os.makedirs(scratch, exist_ok=True)
+    try:
+        gendrv.runtime_rlib()
+        with ProcessPoolExecutor(max_workers=16) as ex:
+            return list(ex.map(_member_one, [(ctx.seed, i, scratch) for i in range(n)]))
+    finally:
+        shutil.rmtree(scratch, ignore_errors=True)
